@@ -187,6 +187,10 @@ def trace_events(seed, n):
             for i in present:
                 p = (rng.uniform(-80, 80), rng.uniform(-80, 80), 0.0)
                 yw = rng.uniform(-math.pi, math.pi)
+                if rng.random() < 0.3:
+                    # headings just either side of the +-pi cut: the two neighbours' quaternions are then nearly opposite in sign
+                    # (q and -q are the same rotation), the case a sign-blind "nearly parallel" shortcut gets wrong (seeded C17_r10)
+                    yw = rng.choice([-1, 1]) * (math.pi - rng.uniform(1e-4, 0.03))
                 ob = obj3d(p, yaw=yw, label="car", uuid=i, time=BASE + tm * 100)
                 ob.frame_id = __import__("perception_eval.common.schema", fromlist=["FrameID"]).FrameID.MAP
                 objs.append(ob)
